@@ -1398,3 +1398,69 @@ package exec
 //@     invariant sascq($PQ$) ==> sasc(nextResult) && (forall j Int :: 0 <= j && j < len(nextResult) && #k >= 0 ==> pos(nextResult[j]) <= pos(qat($PQ$, #k)))
 //@     invariant sdescq($PQ$) ==> sdesc(nextResult) && (forall j Int :: 0 <= j && j < len(nextResult) && #k >= 0 ==> pos(nextResult[j]) >= pos(qat($PQ$, #k)))
 //@     decreases len(nodeSet) - #k
+
+// ---------- steps ----------
+
+//@ macro BX = deref(expr.BSR)
+//@ macro CHV = ASet(selSeq(0, aset(old(absv(context.result)))))
+//@ macro CTXCH = expr.lex, context.root, $CHV$, old(context.contextPosition), old(context.contextSize), context.ContextSettings
+
+//@ func execStepBody(context, expr, nt) (err)
+//@   property C01 C02 C13 C15 C18
+//@   uses sem treelemmas
+//@   requires $HPRE$ && nt == nt($BX$)
+//@   modifies context.result
+//@   hint execContext#1 childDefaultNT(nt) ==> aeq(absv(context.result), $CHV$)
+//@   ensures childDefaultNT(nt) ==> ((err != nil) == (!isASet(old(absv(context.result))) || semerr($BX$, $CTXCH$)))                  @child-axis-error
+//@   ensures childDefaultNT(nt) && err == nil ==> aeq(absv(context.result), sem($BX$, $CTXCH$)) && resok(context.result) && wf(context.result)   @child-axis-by-default
+//@   ensures !childDefaultNT(nt) ==> ((err != nil) == semerr($BX$, $CTX$))                                                        @own-axis-error
+//@   ensures !childDefaultNT(nt) && err == nil ==> aeq(absv(context.result), sem($BX$, $CTX$)) && resok(context.result) && wf(context.result)    @own-axis
+
+//@ macro SC = ntchild(old(deref(expr.BSR)), 0)
+//@ macro SARGS(v) = old(expr.lex), old(context.root), v, old(context.contextPosition), old(context.contextSize), old(context.ContextSettings)
+//@ macro SMODE = (if nt($SC$) == NT_NodeTestAndPredicate then 1 else 0)
+//@ macro SPRED = (nt($SC$) == NT_NodeTestAndPredicate || nt($SC$) == NT_StepWithAxisAndNodeTestAndPredicate)
+//@ macro SR(i) = sem($SC$, $SARGS(stepCtx($SMODE$, qat($PQ$, i)))$)
+//@ macro SBAD(i) = stepBad($SC$, old(expr.lex), old(context.root), $PQ$, old(context.contextPosition), old(context.contextSize), old(context.ContextSettings), $SMODE$, i)
+//@ macro SSTABLE = deref(expr.BSR) == old(deref(expr.BSR)) && expr.lex == old(expr.lex) && context.root == old(context.root) && context.contextPosition == old(context.contextPosition) && context.contextSize == old(context.contextSize) && context.ContextSettings == old(context.ContextSettings) && context.result == old(context.result)
+
+//@ func execStep(context, expr) (err)
+//@   property C01 C02 C03 C13 C15 C18
+//@   uses sem treelemmas
+//@   requires $HPRE$ && nt($B$) == NT_Step
+//@   modifies context.result
+//@   hint execStepBody#1 aeq(absv(addrof_next.result), ASet(qsingle(qat($PQ$, #outer + 1))))
+//@   hint execStepBody#2 aeq(absv(addrof_next.result), ASet(qsingle(qat($PQ$, #outer + 1))))
+//@   hint execStepBody#1 deref(nextExpr.BSR) == $SC$ && nextNT == nt($SC$) && nextExpr.lex == old(expr.lex)
+//@   hint execStepBody#2 deref(nextExpr.BSR) == $SC$ && nextNT == nt($SC$) && nextExpr.lex == old(expr.lex)
+//@   hintafter execStepBody#1 err == nil ==> !semerr($SC$, $SARGS(stepCtx($SMODE$, qat($PQ$, #outer + 1)))$)
+//@   hintafter execStepBody#2 err == nil ==> !semerr($SC$, $SARGS(stepCtx($SMODE$, qat($PQ$, #outer + 1)))$)
+//@   hintafter execStepBody#1 err == nil ==> absv(addrof_next.result) == $SR(#outer + 1)$
+//@   hintafter execStepBody#2 err == nil ==> absv(addrof_next.result) == $SR(#outer + 1)$
+//@   hintafter execStepBody#1 err == nil && isVSet(addrof_next.result) ==> forall n Cursor :: qmem(aset($SR(#outer + 1)$), n) ==> mem(vset(addrof_next.result), n)
+//@   hintafter execStepBody#2 err == nil && isVSet(addrof_next.result) ==> forall n Cursor :: qmem(aset($SR(#outer + 1)$), n) ==> mem(vset(addrof_next.result), n)
+//@   hintafter execStepBody#1 err != nil ==> $SBAD(#outer + 1)$
+//@   hintafter execStepBody#2 err != nil ==> $SBAD(#outer + 1)$
+//@   hint execStepBody#1 absv(context.result) == old(absv(context.result))
+//@   hint execStepBody#2 absv(context.result) == old(absv(context.result))
+//@   ensures $HPOSTE$                                                         @error-iff-specified
+//@   ensures $SPRED$ ==> ($HS1$)                                              @node-set
+//@   ensures $SPRED$ ==> ($HS2A$)                                             @merged-in-document-order
+//@   ensures $SPRED$ ==> ($HS3A$)                                             @spec-ascending
+//@   ensures $SPRED$ ==> ($HS4$)                                              @union-over-context-nodes
+//@   ensures $HPOSTV$                                                         @value-is-Sem
+//@   loop 0
+//@     invariant 0 - 1 <= #k && #k < nntc($B$)
+//@     invariant #k == 0 - 1 ==> nextBsr == nil
+//@     invariant #k >= 0 ==> nextBsr != nil && fresh(nextBsr) && wf(nextBsr) && deref(nextBsr) == ntchild($B$, #k)
+//@     decreases nntc($B$) - #k
+//@   loop 1
+//@     invariant 0 - 1 <= #k && #k < len(nodeSet) || (len(nodeSet) == 0 && #k == 0 - 1)
+//@     invariant $SSTABLE$
+//@     invariant nodes(nodeSet) && wf(nodeSet) && seqOf(nodeSet) == $PQ$
+//@     invariant nextExpr != nil && nextExpr.BSR == nextBsr && nextExpr.lex == old(expr.lex) && nextBsr != nil && wf(nextBsr) && deref(nextBsr) == $SC$ && nextNT == nt($SC$) && $SPRED$
+//@     invariant fresh(result) && nodes(result) && len(result) <= cap(result)
+//@     invariant forall n Cursor :: mem(result, n) ==> exists i Int :: 0 <= i && i <= #k && isASet($SR(i)$) && qmem(aset($SR(i)$), n)
+//@     invariant forall i Int, n Cursor :: 0 <= i && i <= #k && isASet($SR(i)$) && qmem(aset($SR(i)$), n) ==> mem(result, n)
+//@     invariant forall i Int :: 0 <= i && i <= #k ==> !$SBAD(i)$
+//@     decreases len(nodeSet) - #k
